@@ -68,6 +68,10 @@ macro_rules! state_service {
             pub fn new(log: Log) -> Self {
                 $name { state: $krate::notified::State::new(0), log }
             }
+            /// A clone of the state, as another task of the application would hold one.
+            pub fn state_clone(&self) -> $krate::notified::State<u32, Val> {
+                self.state.clone()
+            }
         }
         impl Service for $name {
             type MethodCall<'de> = Meth;
@@ -127,11 +131,14 @@ pub struct StateScen {
     pub delay_polls: bool,
     /// a transport write may find the transport not ready once (a deviation)
     pub pend_writes: bool,
+    /// while such a write is not ready, the state may be set (once) from outside the server, through a
+    /// clone of the service's State - as another task of the application would do it
+    pub outside_sets: bool,
 }
 
 impl StateScen {
     pub fn to_json(&self) -> Value {
-        json!({"state_service": true, "smol": self.smol, "max_conns": self.max_conns, "max_events": self.max_events, "delay_polls": self.delay_polls, "pend_writes": self.pend_writes,
+        json!({"state_service": true, "smol": self.smol, "max_conns": self.max_conns, "max_events": self.max_events, "delay_polls": self.delay_polls, "pend_writes": self.pend_writes, "outside_sets": self.outside_sets,
             "bursts": self.bursts.iter().map(|b| match b { B::Watch => json!("Watch"), B::Get => json!("Get"), B::Sets(n) => json!(n), B::OnceGet => json!("OnceGet"), B::Hangup => json!("Hangup") }).collect::<Vec<_>>()})
     }
     pub fn from_json(v: &Value) -> Option<StateScen> {
@@ -141,6 +148,7 @@ impl StateScen {
             max_events: v["max_events"].as_u64()? as usize,
             delay_polls: v["delay_polls"].as_bool()?,
             pend_writes: v["pend_writes"].as_bool().unwrap_or(false),
+            outside_sets: v["outside_sets"].as_bool().unwrap_or(false),
             bursts: v["bursts"]
                 .as_array()?
                 .iter()
@@ -197,7 +205,21 @@ impl Harness for StateScen {
     fn run(&self, cx: &Ctx) -> Verdict {
         let listener = ScriptListener::new();
         let log: Log = Rc::new(RefCell::new(Vec::new()));
-        let mut fut: Pin<Box<dyn Future<Output = zlink_core::Result<()>>>> = if self.smol { Box::pin(Server::new(listener.clone(), SmolSvc::new(log.clone())).run()) } else { Box::pin(Server::new(listener.clone(), TokioSvc::new(log.clone())).run()) };
+        enum Outside {
+            Tokio(zlink_tokio::notified::State<u32, Val>),
+            Smol(zlink_smol::notified::State<u32, Val>),
+        }
+        let (mut fut, mut outside): (Pin<Box<dyn Future<Output = zlink_core::Result<()>>>>, Outside) = if self.smol {
+            let svc = SmolSvc::new(log.clone());
+            let o = Outside::Smol(svc.state_clone());
+            (Box::pin(Server::new(listener.clone(), svc).run()), o)
+        } else {
+            let svc = TokioSvc::new(log.clone());
+            let o = Outside::Tokio(svc.state_clone());
+            (Box::pin(Server::new(listener.clone(), svc).run()), o)
+        };
+        let mut outside_left = if self.outside_sets { 1 } else { 0 };
+        let mut outside_done = 0usize;
         let mut task = Task::new();
         let n = 1 + cx.choose(self.max_conns, "connections-1");
         let mut conns: Vec<ConnS> = (0..n).map(|i| ConnS { wire: Wire::new(i, Some(cx.clone())), asked: vec![], watching: false, gone: false }).collect();
@@ -210,9 +232,28 @@ impl Harness for StateScen {
         let what = |s: &str| format!("{} service: {s}", if self.smol { "zlink-smol" } else { "zlink-tokio" });
         macro_rules! settle {
             () => {
-                if task.woken() {
-                    if let Poll::Ready(r) = task.run_until_stalled(fut.as_mut(), 100_000) {
+                let mut rounds = 0;
+                while task.woken() {
+                    if let Poll::Ready(r) = task.poll(fut.as_mut()) {
                         return Verdict::fail("server:run-returned", what(&format!("Server::run() completed with {r:?}")));
+                    }
+                    rounds += 1;
+                    if rounds > 100_000 {
+                        xplore::bug!("the server woke itself more than 100000 times without going idle");
+                    }
+                    // the server waits for a transport that is not ready: the moment another task of
+                    // the application may set the state
+                    if outside_left > 0 && conns.iter().any(|c| c.wire.0.borrow().write_just_pended) && conns.iter().any(|c| c.watching && !c.gone) && cx.choose(2, "state-set-from-outside-while-a-write-is-pending") == 1 {
+                        outside_left -= 1;
+                        outside_done += 1;
+                        next_v += 1;
+                        cx.log(|| format!("event: another task sets the state to {next_v} while a write waits for the transport"));
+                        log.borrow_mut().push(('S', next_v));
+                        match &mut outside {
+                            Outside::Tokio(s) => simnet::complete(s.set(next_v)),
+                            Outside::Smol(s) => simnet::complete(s.set(next_v)),
+                        }
+                        cx.goal("state-set-from-outside-while-a-write-is-pending");
                     }
                 }
             };
@@ -400,7 +441,7 @@ impl Harness for StateScen {
         // every call that arrived from a client that is still there was handed to the service
         let asked: usize = conns.iter().filter(|c| !c.gone).map(|c| c.asked.len()).sum();
         let asked_all: usize = conns.iter().map(|c| c.asked.len()).sum();
-        if log.len() < asked || log.len() > asked_all {
+        if log.len() < asked + outside_done || log.len() > asked_all + outside_done {
             return Verdict::fail("server:reply-missing-at-quiescence", what(&format!("{asked} calls arrived, the server is idle, the service was handed {}", log.len())));
         }
         cx.state(H64::new().u(log.len() as u64).u(sets.len() as u64).get());
